@@ -25,8 +25,10 @@ func init() {
 	}
 }
 
-var c12Universe = []ref.Suite{{3, 4, 1}, {1, 1, 1}, {2, 2, 1}, {1, 0, 0}} // 17, 3, 8, 1
-var c12IDs = []byte{17, 3, 8, 1}
+// the fifth member (SHA256 / HMAC-SHA1-96 / AES, a non-standard combination the
+// library supports) only takes part in the thorough tier's lists
+var c12Universe = []ref.Suite{{3, 4, 1}, {1, 1, 1}, {2, 2, 1}, {1, 0, 0}, {3, 1, 1}} // 17, 3, 8, 1, (0x7A)
+var c12IDs = []byte{17, 3, 8, 1, 0x7A}
 
 type c12Case struct {
 	Prefs    []int      `json:"prefs"`    // indexes into the universe, in preference order
@@ -46,9 +48,9 @@ type c12Case struct {
 
 func c12Adv(c c12Case) []byte {
 	var recs []ref.CSRecord
-	order := []int{0, 1, 2, 3}
+	order := []int{0, 1, 2, 3, 4}
 	if c.AdvOrder == 1 {
-		order = []int{3, 2, 1, 0}
+		order = []int{4, 3, 2, 1, 0}
 	}
 	if c.AdvShift > 0 {
 		// suite 0 first (C0 00 00: three bytes, two of them zero), then 3- and
@@ -254,11 +256,15 @@ func runC12(r *rep.R) {
 		}
 	}
 	// all ordered lists without repetition
+	U := 4
+	if thorough(r) {
+		U = 5
+	}
 	var lists [][]int
 	var gen func(cur []int, used int)
 	gen = func(cur []int, used int) {
 		lists = append(lists, append([]int{}, cur...))
-		for i := 0; i < 4; i++ {
+		for i := 0; i < U; i++ {
 			if used&(1<<i) == 0 {
 				gen(append(cur, i), used|1<<i)
 			}
@@ -266,16 +272,16 @@ func runC12(r *rep.R) {
 	}
 	gen(nil, 0)
 	// lists with one repetition: [a,a], [a,b,a], [a,a,b]
-	for a := 0; a < 4; a++ {
+	for a := 0; a < U; a++ {
 		lists = append(lists, []int{a, a})
-		for b := 0; b < 4; b++ {
+		for b := 0; b < U; b++ {
 			if a != b {
 				lists = append(lists, []int{a, b, a}, []int{a, a, b})
 			}
 		}
 	}
 	for _, l := range lists {
-		for adv := 0; adv < 16; adv++ {
+		for adv := 0; adv < 1<<U; adv++ {
 			for order := 0; order < 3; order++ {
 				do(c12Case{Prefs: l, Adv: adv, AdvOrder: order})
 			}
@@ -360,7 +366,7 @@ func runC12(r *rep.R) {
 		}
 	}
 	r.Bound("preference_lists", len(lists))
-	r.Bound("advertised_subsets", 16)
+	r.Bound("advertised_subsets", 1<<U)
 	r.Bound("response_triples", "150 over {0,1,2,3,(4),0x3F}^3 plus all 64 values of each field with the other two as proposed")
 	r.Assume("the BMC follows through with the algorithms it announced, so a library that silently accepts a changed triple is observed succeeding")
 	r.Assume("suites with None integrity/confidentiality may be refused with an error (C01/C12 allow it)")
